@@ -289,10 +289,10 @@ def run(ctx):
                      gv_gym.GymEnvironment.set_state_representation, gv_gym.GymStateWrapper.step, gv_gym.GymStateWrapper.reset,
                      gv_gym.outer_space_to_gym_space, ActionSpace.int_to_action]):
         job = 0
-        nsteps = ctx.pick(100, 300)
+        nsteps = ctx.pick(100, 500)
         for name, path, data in compose.shipped_configs():
             for route in ('direct', 'entry_point', 'gym_make'):
-                for s in range(ctx.pick(1, 4)):
+                for s in range(ctx.pick(1, 12)):
                     job += 1
                     if not ctx.mine(job):
                         continue
